@@ -388,6 +388,9 @@ func runC10(c *eng.Ctx) {
 	c.Rule("R01.8", "K5")
 	ruleReverseStartSlotUnclamped(c)
 
+	c.Rule("R08.6", "K2")
+	ruleReverseReaderSurvivesReplacement(c)
+
 }
 
 func checkPositionTable(c *eng.Ctx, fn *ssa.Function, api *types.Package, typ string, tag eng.VM, want map[string]eng.VM) {
@@ -576,6 +579,29 @@ func ruleReadonlyStopForwardOnly(c *eng.Ctx) {
 // ruleReverseEndStatus (R10.2, shared with C11): fn is the subscribe loop.
 func ruleReverseEndStatus(c *eng.Ctx, fn *ssa.Function) {
 	p := c.P
+	// ... and only for a subscription that was not cancelled: the readers answer io.EOF on cancellation too, and a cancelled
+	// scan is not "everything delivered" (the cursor manager would cache "no cursor stored")
+	{
+		alive := eng.CmpEdges(fn, func(v ssa.Value) bool {
+			call, ok := v.(*ssa.Call)
+			return ok && call.Call.IsInvoke() && call.Call.Method.Name() == "Err" && strings.HasSuffix(call.Call.Value.Type().String(), "context.Context")
+		}, eng.NilConst, eng.EQ)
+		isEOF := eng.CmpEdges(fn, eng.AnyV, eng.Global("io.EOF"), eng.EQ)
+		okAlive := false
+		for _, sn := range eng.CallsIn(fn, "google.golang.org/grpc/status.New") {
+			k, isK := sn.Common().Args[0].(*ssa.Const)
+			if !isK || eng.EnumName(k) != "ResourceExhausted" {
+				continue
+			}
+			if g, _ := eng.GuardedBy(fn, sn.(ssa.Instruction), isEOF); !g || len(isEOF) == 0 {
+				continue
+			}
+			if g, _ := eng.GuardedBy(fn, sn.(ssa.Instruction), alive); g && len(alive) > 0 {
+				okAlive = true
+			}
+		}
+		c.Check(okAlive, "a cancelled subscription is not reported as the end of the partition", p.Pos(fn.Pos()), "err == io.EOF ∧ ctx.Err() == nil → ResourceExhausted", "io.EOF is mapped to ResourceExhausted without looking at the context: a cancelled FetchCursor scan ends like one that found nothing, getLatestCursorOffset answers -1 and GetCursor caches it — later fetches return -1 although a cursor is stored")
+	}
 	// io.EOF is how the reverse reader says that it has gone past the oldest message: the end of a reverse
 	// subscription. It must be reported like every other end (ResourceExhausted), not as an unknown failure.
 	isEOF := eng.CmpEdges(fn, eng.AnyV, eng.Global("io.EOF"), eng.EQ)
